@@ -5,6 +5,7 @@
 -/
 import Flumine.Live
 import Flumine.Props.C03
+import Flumine.Lemmas.Settle
 namespace Flumine.C12
 open Flumine Flumine.Live
 
@@ -156,6 +157,128 @@ theorem simulated_handlers_settle (p : Package) (w : World) (failed oid : Nat) (
     C03.HandlerOutcome (w.order! oid) ((updateStep p (w, failed) oid).1.order! oid) ∧
     C03.HandlerOutcome (w.order! oid) ((placeStep p w oid).order! oid) :=
   ⟨(C03.cancelStep_outcome p w failed oid ho).1, (C03.updateStep_outcome p w failed oid ho).1, C03.placeStep_outcome p w oid ho⟩
+
+
+/-! ### the simulated execution of a whole package -/
+
+open Flumine.World Flumine.OL Flumine.Settle Flumine.Inv in
+/-- C12 for simulated execution, whole package: whatever the kind of the package (place / cancel / update /
+    replace), whatever the simulated exchange answers for each instruction (success, failure with any error,
+    a refused re-placement), and whatever happened to the orders while the request waited out its latency
+    (matched, lapsed, voided, completed), after the package has been executed EVERY order of it is executable
+    or complete - none is left pending, cancelling, updating or replacing.  (Before fix 369e08f this statement
+    was false for replace packages: an order that had completed since the request shifted the instructions and
+    the last order of the package was never handled.) -/
+theorem package_settles_every_order (w : World) (p : Package) (hI : Inv w) (hp : ∀ oid ∈ p.orders, HasOrder w oid) :
+    ∀ oid ∈ w.packageOrders p, Settled ((w.executePackage p).order! oid) := by
+  have hpo : ∀ oid ∈ w.packageOrders p, HasOrder w oid := fun oid h => hp oid (List.mem_filter.mp h).1
+  intro oid hoid
+  unfold executePackage
+  cases p.kind with
+  | place =>
+    simp only; unfold executePlace
+    have := fold_settles (σ := World) id id (placeStep p) Inv
+      (fun s a h _ => settled_of_outcome _ _ (C03.placeStep_outcome p s a h))
+      (fun s a h _ => fr_placeStep s p s a h)
+      (fun s a _ hi => (good_placeStep p s a).2 hi) (w.packageOrders p) w hI hpo oid hoid
+    simp only [id] at this
+    rw [order!_congr _ _ (show (((w.packageOrders p).foldl (placeStep p) w).addTransaction p.client _ false).orders = _ from rfl) oid]
+    exact this
+  | cancel =>
+    simp only; unfold executeCancel
+    simp only
+    have := fold_settles (σ := World × Nat) (·.1) id (cancelStep p) Inv
+      (fun s a h _ => settled_of_outcome _ _ (C03.cancelStep_outcome p s.1 s.2 a h).1)
+      (fun s a h _ => fr_cancelStep s.1 p s a h)
+      (fun s a _ hi => (good_cancelStep p s a).2 hi) (w.packageOrders p) (w, 0) hI hpo oid hoid
+    simp only [id] at this
+    generalize (w.packageOrders p).foldl (cancelStep p) (w, 0) = r at this
+    obtain ⟨w1, failed⟩ := r
+    simp only at this ⊢
+    split
+    · rw [order!_congr _ _ (show (w1.addTransaction p.client failed true).orders = w1.orders from rfl) oid]; exact this
+    · exact this
+  | update =>
+    simp only; unfold executeUpdate
+    simp only
+    have := fold_settles (σ := World × Nat) (·.1) id (updateStep p) Inv
+      (fun s a h _ => settled_of_outcome _ _ (C03.updateStep_outcome p s.1 s.2 a h).1)
+      (fun s a h _ => fr_updateStep s.1 p s a h)
+      (fun s a _ hi => (good_updateStep p s a).2 hi) (w.packageOrders p) (w, 0) hI hpo oid hoid
+    simp only [id] at this
+    generalize (w.packageOrders p).foldl (updateStep p) (w, 0) = r at this
+    obtain ⟨w1, failed⟩ := r
+    simp only at this ⊢
+    split
+    · rw [order!_congr _ _ (show (w1.addTransaction p.client failed true).orders = w1.orders from rfl) oid]; exact this
+    · exact this
+  | replace =>
+    simp only; unfold executeReplace
+    simp only
+    -- the orders that still have an instruction, each paired with its own
+    have hfr : ∀ (s : World × Nat) (a : Nat × Option Rat), HasOrder s.1 a.1 → Inv s.1 → Fr s.1 a.1 s.1 (replaceStep p s a).1 :=
+      fun s a h hi => fr_replaceStep s.1 p s a h hi (Ids.Keeps.refl s.1)
+    have hP : ∀ (s : World × Nat) (a : Nat × Option Rat), HasOrder s.1 a.1 → Inv s.1 → Inv (replaceStep p s a).1 :=
+      fun s a _ hi => (good_replaceStep p s a).2 hi
+    have hlive : ∀ a ∈ ((w.packageOrders p).filter fun oid => (w.order! oid).status ≠ some .executionComplete).map (fun oid => (oid, (w.order! oid).ud.newPrice)),
+        HasOrder w a.1 := by
+      intro a ha
+      obtain ⟨x, hx, rfl⟩ := List.mem_map.mp ha
+      exact hpo x (List.mem_filter.mp hx).1
+    have hres : Settled (((((w.packageOrders p).filter fun oid => (w.order! oid).status ≠ some .executionComplete).map
+        (fun oid => (oid, (w.order! oid).ud.newPrice))).foldl (replaceStep p) (w, 0)).1.order! oid) := by
+      by_cases hec : (w.order! oid).status = some .executionComplete
+      · -- completed since the request: no instruction, nothing touches it
+        refine fold_keeps_settled (σ := World × Nat) (·.1) (·.1) (replaceStep p) Inv hfr hP oid _ (w, 0) hI hlive ?_ (hpo oid hoid) (Or.inr (Or.inl hec))
+        intro a ha e
+        obtain ⟨x, hx, rfl⟩ := List.mem_map.mp ha
+        have := (List.mem_filter.mp hx).2
+        simp only [ne_eq, decide_eq_true_eq] at this
+        simp only at e
+        rw [e] at this; exact this hec
+      · have hin : (oid, (w.order! oid).ud.newPrice) ∈ ((w.packageOrders p).filter fun oid => (w.order! oid).status ≠ some .executionComplete).map
+            (fun oid => (oid, (w.order! oid).ud.newPrice)) :=
+          List.mem_map.mpr ⟨oid, List.mem_filter.mpr ⟨hoid, by simpa using hec⟩, rfl⟩
+        exact fold_settles (σ := World × Nat) (·.1) (·.1) (replaceStep p) Inv
+          (fun s a h hi => replaceStep_own p s a h hi) hfr hP _ (w, 0) hI hlive _ hin
+    generalize (((w.packageOrders p).filter fun oid => (w.order! oid).status ≠ some .executionComplete).map
+        (fun oid => (oid, (w.order! oid).ud.newPrice))).foldl (replaceStep p) (w, 0) = r at hres
+    obtain ⟨w1, failed⟩ := r
+    simp only at hres ⊢
+    split
+    · exact hres
+    · exact hres
+
+open Flumine.World Flumine.OL Flumine.Settle Flumine.Inv in
+/-- ... in every reachable state, for every package waiting in the queue -/
+theorem queued_package_settles_reachable (cfg : Config) (cl : List Client) (ss : List Strategy)
+    (us : List (Nat × Book × (Nat → List Action))) :
+    ∀ p ∈ (runUpdates { cfg := cfg, clients := cl, strategies := ss } us).queue,
+      ∀ oid ∈ (runUpdates { cfg := cfg, clients := cl, strategies := ss } us).packageOrders p,
+        Settled (((runUpdates { cfg := cfg, clients := cl, strategies := ss } us).executePackage p).order! oid) := by
+  intro p hp
+  have hI := inv_reachable cfg cl ss us
+  exact package_settles_every_order _ p hI (fun oid ho => (Ids.hasOrder_iff _ oid).mpr (hI.queue p hp oid ho))
+
+
+/-- non-vacuity of `package_settles_every_order` on the history that exposed the defect: two orders replaced in one
+    package, the first fully matched while the request waits; the package [0, 1] is queued with order 0 already
+    EXECUTION_COMPLETE and order 1 REPLACING - executing it completes order 1 and creates its replacement (3 orders) -/
+def nvBk (pt : Int) (trd : List (Rat × Rat)) : Book :=
+  { pt := pt, activeRunners := 2, runners := [{ sel := 1, atb := [⟨2, 50⟩], atl := [⟨5/2, 50⟩], trd := trd }, { sel := 2 }] }
+def nvO (id : Nat) (size : Rat) : Order :=
+  { id := id, trade := id, strategy := 0, market := 1, sel := 1, sim := { side := .back, kind := .limit, price := 3, size := size } }
+def nvRun : World :=
+  Inv.runUpdates { clients := [{ id := 0 }], strategies := [{ id := 0, streams := [0], maxLive := 5, multiOrder := true, maxOrder := none, maxSel := none }] }
+    [(1, nvBk 1000 [], fun _ => [.create (nvO 0 4) (some { id := 0, strategy := 0, market := 1, sel := 1 }), .place (.byId 0) none false,
+                                  .create (nvO 1 50) (some { id := 1, strategy := 0, market := 1, sel := 1 }), .place (.byId 1) none false]),
+     (1, nvBk 1200 [], fun _ => []),
+     (1, nvBk 1300 [], fun _ => [.batchBegin 0, .replace (.byId 0) (7/2) none false, .replace (.byId 1) (7/2) none false, .batchEnd]),
+     (1, nvBk 1400 [(3, 20)], fun _ => [])]
+example : (nvRun.queue.map fun p => (p.kind.name, p.orders)) = [("REPLACE", [0, 1])] ∧
+    (nvRun.order! 0).status = some .executionComplete ∧ (nvRun.order! 1).status = some .replacing := by decide +kernel
+example : (nvRun.queue.map fun p => (((nvRun.executePackage p).order! 1).status, (nvRun.executePackage p).orders.length)) =
+    [(some .executionComplete, 3)] := by decide +kernel
 
 /-! ### non-vacuity -/
 
